@@ -679,6 +679,9 @@ def gen_session(rng, *, n_steps=30, events=False, listeners=False, loss=False, a
                   else:
                       waiting_nested.append((rid, inner))
     except GenAbort:
+        # the last op made the listeners call each other for longer than the watchdog allows (two listeners that register each other
+        # double the number of calls with every event): the session ends before it
+        ops = ops[:-1]
         return {'acts': acts, 'debug': debug, 'ops': ops, 'tls': {str(i): tls_by_op.get(i, []) for i, op in enumerate(ops) if op[0] == 'bytes'}}
     # drain what Tor already sent (unless the connection is gone)
     if stream and not lost and rng.random() < 0.8:
@@ -686,7 +689,7 @@ def gen_session(rng, *, n_steps=30, events=False, listeners=False, loss=False, a
         try:
             do(['bytes', stream])
         except GenAbort:
-            pass
+            ops = ops[:-1]
     return {'acts': acts, 'debug': debug, 'ops': ops, 'tls': {str(i): tls_by_op.get(i, []) for i, op in enumerate(ops) if op[0] == 'bytes'}}
 
 
